@@ -118,6 +118,22 @@ def compiled_corpus(ctx, gen, nfiles, nfun, nrust):
                 exp, kind = linemap[line]
                 out.append((sym.encode(), exp, "%s:%s" % (cxx, kind)))
                 info["%s:%s" % (cxx, kind)] += 1
+    # local classes (members of classes defined inside functions), with discriminators
+    for cxx in compilers:
+        src, linemap = gen.local_source(ctx.rng, class_params=finding_listed("F10i"))
+        path = os.path.join(d, "local-%s.cpp" % cxx)
+        open(path, "w").write(src)
+        obj = path[:-4] + ".o"
+        r = C.sh([cxx, "-std=gnu++17", "-g", "-O0", "-w", "-c", path, "-o", obj])
+        if r.returncode != 0:
+            ctx.notes.append("corpus: %s failed on the local-class file: %s" % (cxx, r.stdout[-300:]))
+            info["compile_failed"] += 1
+            continue
+        for sym, line in nm_lines(obj):
+            if line in linemap and sym.startswith("_ZZ"):
+                exp, kind = linemap[line]
+                out.append((sym.encode(), exp, "%s:%s" % (cxx, kind)))
+                info["%s:%s" % (cxx, kind)] += 1
     if nrust and C.sh(["which", "rustc"]).returncode == 0:
         src, linemap = gen.rust_source(ctx.rng, nrust)
         path = os.path.join(d, "r0.rs")
